@@ -122,6 +122,11 @@ def generate(tape, tier="quick"):
         # a second composition sharing the spill location is built BEFORE this one runs and is run after it was
         # finalized (several compositions in one process default to the same location)
         sc["shared_location"] = tape.chance(1, 3)
+        bufs = [[li, pi] for li, ln in enumerate(sc["links"]) for pi, a in enumerate(ln["chain"])
+                if a["kind"] in ("next", "prev", "linear", "step", "avg", "sum") and pi >= ln.get("shared_len", 0)]
+        if bufs and tape.chance(1, 2):
+            # one time-buffering adapter with a memory limit of its own (its location still comes from the composition)
+            sc["own_limit"] = {"at": bufs[tape.draw(len(bufs))], "limit": tape.choice([0, 8])}
         return sc
     slot = tape.choice(["output", "output", "next", "prev", "linear", "step", "avg", "sum", "sum_abs"])
     gridded = tape.chance(1, 2)
@@ -334,7 +339,7 @@ def execute_e1(sc):
     root = os.path.join(scratch_dir(), "spill-e1")
     shutil.rmtree(root, ignore_errors=True)
     base = dict(sc, engine="E1")
-    ref = run_e1(dict(base, mem_limit=None), value_check=False)
+    ref = run_e1(dict(base, mem_limit=None, own_limit=None), value_check=False)
     outcomes = []
     saves = loads = 0
     if ref["obs"]["status"] == "ok":
